@@ -89,7 +89,7 @@ def claim_plan_window_data(sig, ctx) -> bool:
         return False
     at = ctx.get("at", 0)
     prog = ctx["program"]
-    if ctx["formula"] in ("C01_StrictOutcome", "C01_SameOutcome", "C10_SweepHarmless"):
+    if ctx["formula"] in ("C01_StrictOutcome", "C01_SameOutcome", "C10_SweepHarmless", "C01_ExecBound"):
         # the outcome form of the same window: the crash fell between the claim and the plan of a stage whose builder
         # adds before-children - they are never created, the stage ends differently from the uninterrupted run
         for e in tr["events"]:
@@ -232,6 +232,50 @@ def region_strands_workflow(sig, ctx) -> bool:
     return any(st.get(r, {}).get("status") == "CANCELED" for r in region)
 
 
+def sweep_restarts_skipped_branch(sig, ctx) -> bool:
+    """OR-split: a recovery sweep ran while the SkipStage of a branch that was NOT activated was still pending (in flight
+    when the worker was killed, its lock not yet lapsed): recovery sees a NOT_STARTED stage whose upstreams are done and
+    queues StartStage for it - it has no guard for NOT_STARTED stages and knows nothing of split conditions; the branch
+    then runs."""
+    if ctx["formula"] not in sig["formulas"]:
+        return False
+    tr = ctx.get("trace")
+    prog = ctx["program"]
+    if not tr or not any(sd.get("split") for sd in prog["stages"]):
+        return False
+    for e in tr["events"]:
+        if e["e"] != "sweep":
+            continue
+        s = e["s"]
+        skips = {m["s"] for m in s["q"] if m["typ"] == "SkipStage"}
+        starts = {m["s"] for m in s["q"] if m["typ"] == "StartStage"}
+        if any((s["st"].get(x) or {}).get("status") == "NOT_STARTED" for x in skips & starts):
+            return True
+    return False
+
+
+def after_children_partly_planned(sig, ctx) -> bool:
+    """CompleteStage plans the after-stages its builder wants one add_stage (= one commit) at a time; a kill after the
+    first and before the last leaves some of them: the redelivered CompleteStage finds after-stages present and plans
+    nothing more - the missing ones never run."""
+    if ctx["formula"] not in sig["formulas"]:
+        return False
+    tr = ctx.get("trace")
+    prog = ctx["program"]
+    if not tr:
+        return False
+    for e in tr["events"]:
+        if e["e"] != "crash":
+            continue
+        s = e["s"]
+        for sd in prog["stages"]:
+            kids = [k["ref"] for k in prog["stages"] if k["parent"] == sd["ref"] and k["owner"] == "AFTER"]
+            have = [k for k in kids if k in s["st"]]
+            if len(kids) >= 2 and have and len(have) < len(kids):
+                return True
+    return False
+
+
 def late_branch_kill(sig, ctx) -> bool:
     """A fired first-of / quorum join stage marked TERMINAL by the wait-retry exhaustion of the
     StartStage its late branch sent."""
@@ -283,5 +327,7 @@ PREDICATES = {
     "concurrent_sweep_stale_requeue": concurrent_sweep_stale_requeue,
     "region_strands_workflow": region_strands_workflow,
     "add_instance_not_atomic": add_instance_not_atomic,
+    "sweep_restarts_skipped_branch": sweep_restarts_skipped_branch,
+    "after_children_partly_planned": after_children_partly_planned,
     "always": always,
 }
